@@ -53,6 +53,13 @@ pub struct Scenario {
     pub clone_statement: bool,
     /// order in which the owning objects are dropped (permutation of 0..6)
     pub drop_order: Vec<usize>,
+    /// seeds of extra single-commitment members, each with its own recovery seed, that are proved
+    /// and then verified together with the primary proof in ONE recovering verify_batch call
+    #[serde(default)]
+    pub companions: Vec<u64>,
+    /// position of the primary proof inside that batch
+    #[serde(default)]
+    pub primary_position: usize,
 }
 
 pub struct C20;
@@ -114,6 +121,22 @@ fn life_cycle(sc: &Scenario, st: &mut RunStats) -> Vec<Violation> {
     if let Some(s) = &seed {
         alloc::register(s.as_bytes(), K_SEED);
     }
+    let mut comp_blind = [[Scalar::ZERO; 6]; 4];
+    let mut comp_seed = [Scalar::ZERO; 4];
+    let n_comp = sc.companions.len().min(4);
+    for (c, cs) in sc.companions.iter().take(4).enumerate() {
+        for k in 0..cfg.ext {
+            comp_blind[c][k] = scalar_from_seed("c20comp", *cs, k as u64);
+            alloc::register(comp_blind[c][k].as_bytes(), K_BLIND);
+        }
+        comp_seed[c] = scalar_from_seed("c20compseed", *cs, 0);
+        alloc::register(comp_seed[c].as_bytes(), K_SEED);
+    }
+    let comp_params = std_params::<G>(cfg.bits, 1, cfg.ext);
+    let comp_commitments: Vec<G> = (0..n_comp)
+        .map(|c| G::commit(comp_params.pc_gens(), &Scalar::from((c % 2) as u64), &comp_blind[c][..cfg.ext]).unwrap())
+        .collect();
+    let comp_ctx = Context { label: 6, extra: None };
     let mut promises = sc.wit.promises.clone();
     if sc.crash == Crash::PromiseAboveValue {
         // make promise[last] exceed the value (value is kept below the maximum by the generator)
@@ -175,6 +198,53 @@ fn life_cycle(sc: &Scenario, st: &mut RunStats) -> Vec<Violation> {
             recovered = Some(m);
         }
     }
+    // one recovering verify_batch call over the primary proof and the seeded companions
+    let mut batch_objects = None;
+    if let (Some(p), true) = (&proof, n_comp > 0) {
+        let mut sts: Vec<RangeStatement<G>> = Vec::with_capacity(n_comp + 1);
+        let mut prs = Vec::with_capacity(n_comp + 1);
+        let mut wits = Vec::with_capacity(n_comp);
+        let mut ok = true;
+        for c in 0..n_comp {
+            let mut r = Vec::with_capacity(cfg.ext);
+            for k in 0..cfg.ext {
+                r.push(comp_blind[c][k]);
+            }
+            let w = RangeWitness::init(vec![CommitmentOpening::new((c % 2) as u64, r)]).expect("witness");
+            let s = RangeStatement::init(comp_params.clone(), vec![comp_commitments[c].clone()], vec![None], Some(comp_seed[c]))
+                .expect("statement");
+            let mut crng = FaultRng::new(RngMode::Healthy(sc.rng_seed ^ (c as u64 + 1)));
+            paint_stack(&NEUTRAL_STACK);
+            match prove::<G>(&comp_ctx, &s, &w, &mut crng) {
+                Ok(Ok(cp)) => {
+                    sts.push(s);
+                    prs.push(cp);
+                    wits.push(w);
+                },
+                _ => ok = false,
+            }
+        }
+        if ok {
+            let pos = sc.primary_position.min(sts.len());
+            sts.insert(pos, statement.clone());
+            prs.insert(pos, p.clone());
+            let mut ctxs: Vec<&Context> = vec![&comp_ctx; n_comp];
+            ctxs.insert(pos, &sc.ctx);
+            let a = if action == tari_bulletproofs_plus::range_proof::VerifyAction::VerifyOnly {
+                tari_bulletproofs_plus::range_proof::VerifyAction::RecoverAndVerify
+            } else {
+                action
+            };
+            paint_stack(&NEUTRAL_STACK);
+            let r = verify::<G>(&ctxs, &sts, &prs, a);
+            if let Ok(Ok(m)) = &r {
+                if m.iter().filter(|x| x.is_some()).count() >= 2 {
+                    st.probe("several_masks_recovered_in_one_batch");
+                }
+            }
+            batch_objects = Some((sts, prs, wits, r));
+        }
+    }
     // drop everything in the scheduled order
     paint_stack(&NEUTRAL_STACK);
     let mut witness = Some(witness);
@@ -193,6 +263,7 @@ fn life_cycle(sc: &Scenario, st: &mut RunStats) -> Vec<Violation> {
         }
     }
     drop((witness, witness2, statement, statement2, proof, recovered));
+    drop(batch_objects);
     let (freed_blocks, scanned) = alloc::disarm();
     // ---- end of armed section ------------------------------------------------------------------
     st.evals += freed_blocks as u64;
@@ -304,6 +375,7 @@ fn lattice(tier: Tier) -> Vec<(Config, bool, Crash)> {
     let mut v = Vec::new();
     let cfgs: Vec<Config> = match tier {
         Tier::Quick => vec![
+            Config { bits: 2, m: 1, cap: 2, ext: 5 },
             Config { bits: 8, m: 1, cap: 1, ext: 1 },
             Config { bits: 64, m: 1, cap: 1, ext: 2 },
             Config { bits: 2, m: 2, cap: 4, ext: 3 },
@@ -400,9 +472,15 @@ impl Check for C20 {
             promises,
             blind_seed: rng.next_u64(),
             seed_nonce: if with_seed { Some(rng.next_u64()) } else { None },
+            zero_blind: vec![],
         };
         let mut drop_order: Vec<usize> = (0..6).collect();
         rng.shuffle(&mut drop_order);
+        let companions: Vec<u64> = if crash == Crash::None && (cfg.ext >= 5 || rng.chance(1, 3)) {
+            (0..rng.range(1, 3)).map(|_| rng.next_u64()).collect()
+        } else {
+            vec![]
+        };
         Scenario {
             cfg,
             wit,
@@ -413,6 +491,8 @@ impl Check for C20 {
             clone_witness: rng.chance(1, 2),
             clone_statement: rng.chance(1, 2),
             drop_order,
+            companions,
+            primary_position: rng.usize_below(4),
         }
     }
 
@@ -426,6 +506,16 @@ impl Check for C20 {
             let mut s = sc.clone();
             s.crash = Crash::None;
             v.push(s);
+        }
+        if !sc.companions.is_empty() {
+            let mut s = sc.clone();
+            s.companions.clear();
+            v.push(s);
+            if sc.companions.len() > 1 {
+                let mut s = sc.clone();
+                s.companions.truncate(1);
+                v.push(s);
+            }
         }
         if sc.clone_witness || sc.clone_statement {
             let mut s = sc.clone();
@@ -477,6 +567,7 @@ impl Check for C20 {
             "inline_seed_observed_before_drop",
             "value_pattern_registered",
             "freed_blocks_scanned",
+            "several_masks_recovered_in_one_batch",
         ]
     }
 }
